@@ -1509,3 +1509,18 @@ package analysis
 //@   loop 3: invariant forall n in dom(opts.Spec.spec.Definitions) :: opts.Spec.spec.Definitions[n] == old(opts.Spec.spec.Definitions[n])
 //@   loop 3: invariant forall n in seen :: n in dom(expected)
 //@   loop 3: invariant hasRemoved <==> (exists n string :: n in seen)
+
+//@ func removeUnused(opts)
+//@   aspect unused
+//@   requires opts != nil && opts.Spec != nil && opts.Spec.spec != nil
+//@   modifies map opts.Spec.spec.Definitions, heaps INDEX
+//@   ensures opts.Spec.spec == old(opts.Spec.spec) && opts.Spec.spec.Definitions == old(opts.Spec.spec.Definitions)
+//@   ensures forall n in dom(opts.Spec.spec.Definitions) :: old(n in dom(opts.Spec.spec.Definitions)) && opts.Spec.spec.Definitions[n] == old(opts.Spec.spec.Definitions[n])
+//@   loop 1: invariant opts != nil && opts.Spec != nil && opts.Spec.spec == old(opts.Spec.spec) && opts.Spec.spec.Definitions == old(opts.Spec.spec.Definitions)
+//@   loop 1: invariant forall n in dom(opts.Spec.spec.Definitions) :: old(n in dom(opts.Spec.spec.Definitions)) && opts.Spec.spec.Definitions[n] == old(opts.Spec.spec.Definitions[n])
+
+//@ func removeUnusedShared(opts)
+//@   aspect unused
+//@   requires opts != nil && opts.Spec != nil && opts.Spec.spec != nil
+//@   modifies opts.Spec.spec.Parameters, opts.Spec.spec.Responses, heaps INDEX
+//@   ensures opts.Spec.spec == old(opts.Spec.spec) && opts.Spec.spec.Parameters == nil && opts.Spec.spec.Responses == nil
